@@ -168,9 +168,9 @@ def _registry_sep(st, a, lst):
     gname, nname = {"agents": ("agents_group_name2agent", "name2agent"), "markets": ("markets_group_name2market", "name2market")}[lst]
     g = st.read(sim, gname); k = z3.Const("k_grp", z3.StringSort())
     others = [st.read(sim, f).term for f in (("high_frequency_agents", "normal_frequency_agents") if lst == "agents" else ())]
-    return [("the registry list, the group lists and the dictionaries are distinct objects",
-             z3.And(*[L != o for o in others], g.term != st.read(sim, nname).term,
-                    z3.ForAll([k], z3.Implies(z3.Select(st.dict_dom(g), k), z3.Select(st.dict_val(g), k) != L))))]
+    return [("the registry list, the pools, the group lists and the dictionaries are distinct existing objects",
+             z3.And(*[L != o for o in others], z3.Distinct(*others) if len(others) > 1 else z3.BoolVal(True), *[st.is_alloc(o) for o in others + [L]], g.term != st.read(sim, nname).term,
+                    z3.ForAll([k], z3.Implies(z3.Select(st.dict_dom(g), k), z3.And(z3.Select(st.dict_val(g), k) != L, *[z3.Select(st.dict_val(g), k) != o for o in others])))))]
 
 
 def registry_task(fname, param, lst, id_field, id_dict, name_dict, cls):
@@ -187,6 +187,18 @@ def registry_task(fname, param, lst, id_field, id_dict, name_dict, cls):
                  z3.And(st1.read(sim, lst).term == L, st1.length(L) == st0.length(L) + 1, z3.ForAll([y], st1.mem(L, y) == z3.Or(st0.mem(L, y), y == x.term)),
                         st1.dict_has(st1.read(sim, id_dict), st0.read(x, id_field)), st1.dict_get(st1.read(sim, id_dict), st0.read(x, id_field), check=False).term == x.term,
                         st1.dict_has(st1.read(sim, name_dict), st0.read(x, "name")), st1.dict_get(st1.read(sim, name_dict), st0.read(x, "name"), check=False).term == x.term))]
+    if lst == "agents":
+        base_post = post
+
+        def post(st0, st1, a, res):      # noqa: F811
+            sim, x = a["self"], a[param]
+            H = st0.read(sim, "high_frequency_agents").term; N = st0.read(sim, "normal_frequency_agents").term; y = z3.Const("y_pool", REF)
+            hft = is_instance("HighFrequencyAgent", x.term)
+            grow = lambda P, c: z3.And(st1.length(P) == st0.length(P) + z3.If(c, 1, 0), z3.ForAll([y], st1.mem(P, y) == z3.Or(st0.mem(P, y), z3.And(c, y == x.term))))
+            what = "C09 the agent joins exactly one consultation pool: the high-frequency pool iff it is a HighFrequencyAgent (of any depth of subclassing), else the normal pool"
+            return base_post(st0, st1, a, res) + [
+                (what + " [the pool objects stay]", z3.And(st1.read(sim, "high_frequency_agents").term == H, st1.read(sim, "normal_frequency_agents").term == N)),
+                (what + " [high-frequency pool]", grow(H, hft)), (what + " [normal pool]", grow(N, z3.Not(hft)))]
     spec = FSpec(qual, post=post, raises={"ValueError": raises}, props=("C18",), param_types={"group_name": ("opt", ("str",))},
                  pre=lambda st, a: [("len >= 0", st.length(st.read(a["self"], lst).term) >= 0)] + _registry_sep(st, a, lst),
                  modifies=lambda st, a: ["len", "mem", "el:Ref", "nodup", "heapok", "dd:Int_Ref", "dv:Int_Ref", "dd:String_Ref", "dv:String_Ref", ("f:Simulator.n_" + lst.rstrip("s") + "s", [a["self"].term])])
